@@ -663,7 +663,7 @@ def copy_val(v):
         if v[0] == "adt":
             return ("adt", v[1], v[2], [copy_val(x) for x in v[3]])
         if v[0] in ("tuple", "array"):
-            return (v[0], [copy_val(x) for x in v[1]])
+            return (v[0], [copy_val(x) for x in v[1]]) + tuple(v[2:])
         if v[0] == "closure":
             return ("closure", v[1], [copy_val(x) for x in v[2]]) + tuple(v[3:])
     return v
@@ -866,12 +866,32 @@ def m_index(it, args, callee, depth):
     if res and res in it.prog.bodies:
         return NotImplemented
     r, i = args[0], args[1]
+    while isinstance(r, tuple) and r[0] == "ref" and isinstance(it.load_ref(r), tuple) and it.load_ref(r)[0] == "ref":
+        r = it.load_ref(r)              # &&[T; N] and the like: index the array behind the references
     if isinstance(r, tuple) and r[0] == "ref" and isinstance(i, int):
         tgt = it.load_ref(r)
         if isinstance(tgt, tuple) and tgt[0] == "array":
             if i >= len(tgt[1]):
                 raise Panic("index out of bounds")
+            if len(tgt) > 2 and tgt[2] == "window":
+                return tgt[1][i]
             return ("ref", r[1], r[2], list(r[3]) + [{"ci": i, "ml": 0, "fe": False}])
+    # array[range] with concrete bounds: a read-only window (a fresh array of references to the elements)
+    iv = deref_all(it, i)
+    if isinstance(r, tuple) and r[0] == "ref" and isinstance(iv, tuple) and iv[0] == "adt" and "ops::range::Range" in iv[1]:
+        tgt = it.load_ref(r)
+        if isinstance(tgt, tuple) and tgt[0] == "array" and all(isinstance(x, int) for x in iv[3]):
+            n = len(tgt[1])
+            kind = iv[1].rsplit("::", 1)[-1]
+            lo, hi = {"Range": lambda: (iv[3][0], iv[3][1]), "RangeFrom": lambda: (iv[3][0], n), "RangeTo": lambda: (0, iv[3][0]),
+                      "RangeFull": lambda: (0, n), "RangeInclusive": lambda: (iv[3][0], iv[3][1] + 1)}.get(kind, lambda: (None, None))()
+            if lo is not None:
+                if lo > hi or hi > n:
+                    raise Panic("slice index out of range")
+                cell = Frame(None)
+                # a WINDOW: its elements are aliases of the parent's elements (iteration/indexing yields those references themselves)
+                cell.locals[0] = ("array", [("ref", r[1], r[2], list(r[3]) + [{"ci": k, "ml": 0, "fe": False}]) for k in range(lo, hi)], "window")
+                return ("ref", cell, 0, [])
     return UNKNOWN
 
 
